@@ -32,6 +32,9 @@ def queries(max_leaves):
     for a, b, c in itertools.permutations(["a", "t:b", "n.x:d", "(e OR f)", "(g AND h)", "NOT i", "+j"], 3):
         out += ["%s AND %s OR %s" % (a, b, c), "%s OR %s AND %s" % (a, b, c), "%s %s AND %s" % (a, b, c), "%s %s OR %s" % (a, b, c),
                 "%s AND (%s OR %s)" % (a, b, c), "%s AND %s AND (%s)" % (a, b, c), "(%s %s) AND %s" % (a, b, c), "%s AND %s %s" % (a, b, c)]
+    # mixes whose inner operation has three or more operands (operations are n-ary), also behind groups / fields (not refused)
+    out += ["x OR a AND b AND c", "a AND b AND c OR x", "x AND (y OR a AND b AND c)", "a OR b OR c d", "a b c OR d", "x OR a AND b AND c AND d",
+            "x OR (a AND b AND c)", "t:(a AND b AND c) OR x", "x AND a OR b OR c", "(x OR a AND b AND c)^2", "x OR a AND b AND c AND n.x:d"]
     return list(dict.fromkeys(out))
 
 
